@@ -173,17 +173,17 @@ func cbody(sc cscenario) func() {
 		queue.VerifSetPageFactory(prec.Wrap(cRealPageFn))
 		fq, err := queue.NewFanOutQueue(dir, 0)
 		if err != nil {
-			vevid.Fatal("new fan-out queue: %v", err)
+			vevid.OpFailed("new fan-out queue: %v", err)
 		}
 		w.fq = fq
 		cg, err := fq.GetOrCreateConsumerGroup("a")
 		if err != nil {
-			vevid.Fatal("group: %v", err)
+			vevid.OpFailed("group: %v", err)
 		}
 		w.cg = cg
 		for i := 0; i < sc.Preload; i++ {
 			if err := fq.Queue().Put(payload(nil, i)); err != nil {
-				vevid.Fatal("preload: %v", err)
+				vevid.OpFailed("preload: %v", err)
 			}
 		}
 		for i := 0; i < sc.PreConsume; i++ {
